@@ -142,6 +142,7 @@ func cmdCheck(argv []string) int {
 	var vcs []*VC
 	var frs []*FuncResult
 	var cleanups []func()
+	var engines []*Engine
 	defer func() {
 		for _, f := range cleanups {
 			f()
@@ -166,6 +167,8 @@ func cmdCheck(argv []string) int {
 	for _, cfg := range cfgs {
 		e := newEngine(*repo)
 		e.known = openKnown
+		e.tier = *tier
+		engines = append(engines, e)
 		pkgs := cfg.Packages
 		var loadErr error
 		if cfg.Gno != nil {
@@ -392,6 +395,13 @@ func cmdCheck(argv []string) int {
 			"known_findings":           knownEv,
 			"dropped_by_translation":   []string{"goroutines/channels/select (functions using them are outside the subset)", "mutex operations (no-ops)", "logging and fmt formatting (opaque)"},
 			"per_obligation_timeout_s": fsec,
+			"split_cases_left_to_thorough_tier": func() int {
+				n := 0
+				for _, e := range engines {
+					n += e.skippedCases
+				}
+				return n
+			}(),
 		},
 		"assumptions": assumeList,
 		"wall_s":      round3(time.Since(t0).Seconds()),
